@@ -6,6 +6,7 @@ import (
 	"strings"
 	"testing"
 
+	"github.com/gdamore/tcell/v2"
 	"github.com/gdamore/tcell/v2/terminfo"
 	"pgregory.net/rapid"
 	"verif.local/hx"
@@ -16,6 +17,9 @@ import (
 // into reads; nothing is swallowed, nothing stays buffered past the timeout.
 
 type c02tok struct {
+	// pair: the token may produce two events (an Esc key, then the report)
+	// or the report alone; never the report before the Esc key
+	pair   bool
 	Kind   string
 	B      []byte
 	accept func(string) bool
@@ -146,6 +150,11 @@ func drawTokens(t *rapid.T, ti *terminfo.Terminfo, w, h int) []c02tok {
 		case nx.Kind == "rune":
 			inner := nx.accept
 			merged.accept = func(g string) bool { return inner(stripAlt(g)) && g != stripAlt(g) }
+		case nx.Kind == "mouse" || nx.Kind == "focus" || nx.Kind == "clip":
+			// an ESC directly before a report: input order demands that an
+			// Esc key, if delivered at all, comes before the report
+			merged.pair = true
+			merged.accept = nx.accept
 		default:
 			merged.weak = true
 		}
@@ -282,7 +291,7 @@ func runC02(t *rapid.T) {
 		fail("C02/partition", "delivered in one read: %v; cut at %v: %v", a.evs, p.Cuts, b.evs)
 	}
 	if p.Kind == "tokens" {
-		ok := len(a.evs) == len(p.Toks)
+		ok := true
 		weak := false
 		for _, tk := range p.Toks {
 			if tk.weak {
@@ -290,12 +299,23 @@ func runC02(t *rapid.T) {
 			}
 		}
 		if !weak {
-			if ok {
-				for i, tk := range p.Toks {
-					if !tk.accept(a.evs[i]) {
-						ok = false
+			// walk the events token by token
+			ok = true
+			i := 0
+			for _, tk := range p.Toks {
+				if tk.pair {
+					if i < len(a.evs) && a.evs[i] == keyDesc(tcell.KeyEsc, 0) {
+						i++
 					}
 				}
+				if i >= len(a.evs) || !tk.accept(a.evs[i]) {
+					ok = false
+					break
+				}
+				i++
+			}
+			if i != len(a.evs) {
+				ok = false
 			}
 			if !ok {
 				var wants []string
